@@ -1,6 +1,7 @@
 package main
 
 import (
+	"syscall"
 	"fmt"
 	"os"
 	"path/filepath"
@@ -506,6 +507,63 @@ func c15LongTargets(msize uint32, lo, hi int, dotu bool) Scenario {
 	}}
 }
 
+// c15UnreadableLink: the host lists a symbolic link but refuses to say where it points
+// (as /proc does for some): the entry is still an entry of the directory, listed once.
+func c15UnreadableLink(dotu bool, errno syscall.Errno) Scenario {
+	name := fmt.Sprintf("dirread with a symbolic link the host refuses to read (%v) dotu=%v", errno, dotu)
+	return Scenario{Name: name, Run: func(rc *RunCtx) *Result {
+		res := &Result{Exhaustive: true}
+		base, root := scratchDir("c15u")
+		defer os.RemoveAll(base)
+		os.MkdirAll(filepath.Join(root, "dir"), 0o755)
+		os.WriteFile(filepath.Join(root, "dir", "a"), []byte("a"), 0o644)
+		os.WriteFile(filepath.Join(root, "dir", "z"), []byte("zz"), 0o644)
+		os.Symlink("a", filepath.Join(root, "dir", "L"))
+		os.Symlink("nowhere", filepath.Join(root, "dir", "M"))
+		vs.HostHook = func(op, path string) error {
+			if op == "readlink" && strings.HasSuffix(path, "/dir/L") {
+				return errno
+			}
+			return nil
+		}
+		defer func() { vs.HostHook = nil }()
+		var bad string
+		body := func() {
+			h := newUfsH(root, 8216, dotu)
+			cl := h.Connect()
+			ver := "9P2000"
+			if dotu {
+				ver = "9P2000.u"
+			}
+			cl.Version(8216, ver)
+			cl.Rpc(tattach(1, 0, wire.NOFID, "", uint32(os.Geteuid()), dotu))
+			cl.Rpc(twalk(2, 0, 1, "dir"))
+			if r := cl.Rpc(&wire.Msg{Type: wire.Topen, Tag: 3, Fid: 1, Mode: 0}); r == nil || r.Type != wire.Ropen {
+				bad = "cannot open the directory"
+				return
+			}
+			for _, cnt := range []uint32{8192, 200, 120} {
+				got, _, b := c15List(cl, dotu, 1, cnt, 10)
+				res.Evals++
+				sort.Strings(got)
+				if b != "" || strings.Join(got, ",") != "L,M,a,z" {
+					bad = fmt.Sprintf("count %d: the listing returned %v %s; the directory holds L, M, a, z", cnt, got, b)
+					return
+				}
+			}
+		}
+		x := vs.Run(nil, body, vs.Options{Horizon: 100000000})
+		if len(x.Panics) > 0 {
+			bad = "panic: " + x.Panics[0].Value
+		}
+		res.Nontrivial = res.Evals
+		if bad != "" {
+			res.Findings = append(res.Findings, Finding{Sig: "C15/unreadable-link/" + sigWords(bad), Msg: name + ": " + bad})
+		}
+		return res
+	}}
+}
+
 func c15Scenarios(tier string) []Scenario {
 	var out []Scenario
 	lens := []int{1, 2, 17, 255}
@@ -546,6 +604,7 @@ func c15Scenarios(tier string) []Scenario {
 		return l
 	}
 	out = append(out, c15Vanishing(3, all(3), 512, true), c15Vanishing(40, all(40), 4120, false))
+	out = append(out, c15UnreadableLink(true, syscall.EACCES), c15UnreadableLink(true, syscall.ENOENT), c15UnreadableLink(false, syscall.EACCES))
 	for lo := 0; lo < 1200; lo += 300 {
 		out = append(out, c15LongTargets(8216, lo, lo+299, true))
 	}
